@@ -256,22 +256,52 @@ func (c *Ctx) pointerPlanRule(reach []*core.FuncInfo) {
 	allField, _ := getterField(c, "AllReferences")
 	// the resolver and its wrappers: module functions that hand one of their own spec.Ref parameters to it
 	resolvers := map[*types.Func]bool{deepest.Obj: true}
-	for _, g := range c.P.SortedFuncs() {
-		ginfo := c.info(g)
-		gsig := g.Obj.Type().(*types.Signature)
-		for _, call := range calls(g.Decl.Body) {
-			if c.P.StaticCallee(g, call) != deepest.Obj {
+	for changed := true; changed; {
+		changed = false
+		for _, g := range c.P.SortedFuncs() {
+			if resolvers[g.Obj] {
 				continue
 			}
-			for _, a := range call.Args {
-				o := core.ObjOf(ginfo, a)
-				for i := 0; o != nil && i < gsig.Params().Len(); i++ {
-					if gsig.Params().At(i) == o && core.IsSpecType(o.Type(), "Ref") {
-						resolvers[g.Obj] = true
+			ginfo := c.info(g)
+			gsig := g.Obj.Type().(*types.Signature)
+			for _, call := range calls(g.Decl.Body) {
+				if !resolvers[c.P.StaticCallee(g, call)] {
+					continue
+				}
+				for _, a := range call.Args {
+					o := core.ObjOf(ginfo, a)
+					for i := 0; o != nil && i < gsig.Params().Len(); i++ {
+						if gsig.Params().At(i) == o && core.IsSpecType(o.Type(), "Ref") && !resolvers[g.Obj] {
+							resolvers[g.Obj] = true
+							changed = true
+						}
 					}
 				}
 			}
 		}
+	}
+	// a wrapper that also records the result under its key parameter is a planning step: plan(k, ref)
+	wrapperPlans := func(g *core.FuncInfo) bool {
+		if g == nil || g.Decl == nil || g.Decl.Body == nil {
+			return false
+		}
+		ginfo := c.info(g)
+		found := false
+		ast.Inspect(g.Decl.Body, func(nd ast.Node) bool {
+			as, ok := nd.(*ast.AssignStmt)
+			if !ok || len(as.Lhs) != 1 {
+				return true
+			}
+			ix, ok := core.Unparen(as.Lhs[0]).(*ast.IndexExpr)
+			if !ok || !core.IsMap(ginfo.TypeOf(ix.X)) {
+				return true
+			}
+			if o := core.ObjOf(ginfo, ix.Index); o != nil && c.P.Locals(g).Params[o] && core.IsString(o.Type()) {
+				found = true
+			}
+			return true
+		})
+		return found
 	}
 	n := 0
 	for _, fi := range reach {
@@ -367,6 +397,9 @@ func (c *Ctx) pointerPlanRule(reach []*core.FuncInfo) {
 				}
 				return true
 			})
+			if !planned && wrapperPlans(c.P.Funcs[c.P.StaticCallee(fi, call)]) {
+				planned = true
+			}
 			if !planned {
 				continue
 			}
